@@ -19,6 +19,9 @@ class Anchors:
             r = self.b._resolve_fn_path(n, env)
             if r and r[0] in self.f.fns and r[0] not in out:
                 out.append(r[0])
+            elif not r and len(n["segs"]) >= 2 and "::".join(n["segs"][-2:]) in self.f.fns and "::".join(n["segs"][-2:]) not in out:
+                # `module::Type::method` — an associated function named through its module path
+                out.append("::".join(n["segs"][-2:]))
         return out
 
     def role(self, name):
